@@ -107,3 +107,44 @@ Proof.
   exact (conj (conj H1 (proj1 (C04_numeric_safe _) H1))
         (conj (conj H2 (proj1 (proj2 (C04_numeric_safe _)) H2)) (conj H3 (proj2 (proj2 (C04_numeric_safe _)) H3)))).
 Qed.
+
+(* ================================================================================================== *)
+(* non-vacuity examples added after the reviewer's audit (Properties/C04_nv.v, 2026-10-01)         *)
+(* ================================================================================================== *)
+
+(* ==== non-vacuity instances obtained BY APPLYING the theorems above (added after review) ================== *)
+
+(* C04_total: strings of every row of the table, malformed numbers, unbalanced quotes, the empty string, non-ASCII: no
+   error of any kind; the values are shown by computation *)
+Example C04_total_nonvacuous :
+  let l := map of_string ["-0012"; ".5E-3"; "1e"; "--1"; "'a b"; "''"; ""; " oN "; "NULL"; "1_000"; "0x1F"; "é1"]%string in
+  Forall (fun s => parse_value s <> Raise E_Fuel /\ parse_value s <> Raise E_Index /\ parse_value s <> Raise E_Recursion) l /\
+  map parse_value l = [Ok (SInt (-12)); Ok (SFloat (of_string ".5E-3")); Ok (SStr (of_string "1e")); Ok (SStr (of_string "--1"));
+                       Ok (SStr (of_string "a b")); Ok (SStr []); Ok (SStr []); Ok (SBool true); Ok SNone;
+                       Ok (SStr (of_string "1_000")); Ok (SStr (of_string "0x1F")); Ok (SStr (of_string "é1"))].
+Proof.
+  intros l. split.
+  - apply Forall_forall. intros s _. exact (conj (C04_total s _) (conj (C04_total s _) (C04_total s _))).
+  - vm_compute. reflexivity.
+Qed.
+
+(* C04_fmt_int: zero, a negative number, numbers beyond 64 bits *)
+Example C04_fmt_int_nonvacuous :
+  let zs := [0; -12; 7; 18446744073709551616; -340282366920938463463374607431768211456]%Z in
+  Forall (fun z => parse_value (format_scalar (SInt z)) = Ok (SInt z)) zs /\
+  map (fun z => format_scalar (SInt z)) zs =
+    map of_string ["0"; "-12"; "7"; "18446744073709551616"; "-340282366920938463463374607431768211456"]%string.
+Proof.
+  intros zs. split; [apply Forall_forall; intros z _; exact (C04_fmt_int z) | vm_compute; reflexivity].
+Qed.
+
+(* C04_fmt_bool_none: both booleans and None, with their spellings *)
+Example C04_fmt_bool_none_nonvacuous :
+  (parse_value (format_scalar (SBool true)) = Ok (SBool true) /\ parse_value (format_scalar (SBool false)) = Ok (SBool false) /\
+   parse_value (format_scalar SNone) = Ok SNone) /\
+  format_scalar (SBool true) = of_string "true" /\ format_scalar (SBool false) = of_string "false" /\ format_scalar SNone = of_string "NULL".
+Proof.
+  split.
+  - exact (conj (proj1 C04_fmt_bool_none true) (conj (proj1 C04_fmt_bool_none false) (proj2 C04_fmt_bool_none))).
+  - vm_compute. repeat split; reflexivity.
+Qed.
